@@ -1,4 +1,133 @@
-import NumqiModel.Manifold
+/-
+C02 — trivializations are locally onto (full-rank differential).  **Claimed partial.**
+
+What these theorems carry is the *counting* and the *linear layer*:
+* the parameter count of every module constructor (`Numqi.Manifold.Count.*Param`, the formulas of the `__init__`s) equals the
+  dimension of the manifold named by the property plus an explicit number of gauge directions — all `d`, `r`;
+* the claimed rank of each Stiefel chart never exceeds its parameter count;
+* the linear placements `θ ↦ generator` (SO: antisymmetric block; SU: `i·`traceless Hermitian) and `θ ↦` traceless Hermitian matrix are injective —
+  in particular the repaired real Cayley/exp chart is **not** constant;
+* the differentials of `exp` and of the Cayley transform at the base point are `id` and `-2·id`, and the model's order-1 Cayley chart is that map.
+
+**Not proved (named gap):** that the rank of the differential at a *generic* θ equals the rank at one point (real-analyticity), and the
+differentials of the normalising maps (quotient, softmax, Cholesky, polar, qr, Euler).  Stated as `generic_rank.Statement` for the exp chart; the
+generic-point rank of every map is *searched* numerically by the probe of `harness/c02.py` (autograd Jacobian) and reported as such.
+-/
+import NumqiProofs.ManifoldCount
+import NumqiProofs.ManifoldPlacement
+import NumqiProofs.ManifoldDiff
+
 namespace Numqi.C02
-theorem placeholder : True := trivial
+open Numqi Numqi.Manifold Numqi.Manifold.Count Matrix
+open Numqi.Gellmann (Scalars)
+
+variable {dim : Nat}
+
+/-! ### counting (all `d`, `r`) -/
+
+/-- Trace1PSD / cholesky / real: `N0 = (dr - r(r-1)/2 - 1) + 1` (gauge: global scale) -/
+theorem count_psd_cholesky_real (dim rank : Nat) (h : rank ≤ dim) (hr : 1 ≤ rank) :
+    psdParam dim rank true true = psdDim dim rank true + 1 := psdParam_cholesky_real dim rank h hr
+/-- complex: `2N0 - r = (2dr - r² - 1) + 1` -/
+theorem count_psd_cholesky_complex (dim rank : Nat) (h : rank ≤ dim) (hr : 1 ≤ rank) :
+    psdParam dim rank false true = psdDim dim rank false + 1 := psdParam_cholesky_complex dim rank h hr
+theorem count_psd_ensemble_real (dim rank : Nat) (h : rank ≤ dim) (hr : 1 ≤ rank) :
+    psdParam dim rank true false = psdDim dim rank true + (rank + rank * (rank - 1) / 2 + 1) := psdParam_ensemble_real dim rank h hr
+theorem count_psd_ensemble_complex (dim rank : Nat) (h : rank ≤ dim) (hr : 1 ≤ rank) :
+    psdParam dim rank false false = psdDim dim rank false + (rank + rank * rank + 1) := psdParam_ensemble_complex dim rank h hr
+/-- sphere: quotient = dimension + 1 (radius), coordinate = dimension -/
+theorem count_sphere_quotient (dim : Nat) (hd : 1 ≤ dim) (isReal : Bool) :
+    sphereParam dim isReal true = sphereDim dim isReal + 1 := sphereParam_quotient dim hd isReal
+theorem count_sphere_coordinate (dim : Nat) (isReal : Bool) : sphereParam dim isReal false = sphereDim dim isReal :=
+  sphereParam_coordinate dim isReal
+/-- simplex: `d = (d-1) + 1` -/
+theorem count_simplex (dim : Nat) (hd : 1 ≤ dim) : probParam dim = simplexDim dim + 1 := probParam_eq dim hd
+/-- SO(d)/SU(d) charts are minimal -/
+theorem count_so (dim : Nat) (isReal : Bool) : soParam dim isReal = soDim dim isReal := rfl
+/-- Stiefel polar / qr: `dr = (dr - r(r+1)/2) + r(r+1)/2`, `2dr = (2dr - r²) + r²` -/
+theorem count_stiefel_polar_qr (dim rank : Nat) (h : rank ≤ dim) (isReal : Bool) :
+    stiefelParam dim rank isReal .polar false = stiefelDim dim rank isReal + (if isReal then rank * (rank + 1) / 2 else rank * rank)
+    ∧ stiefelParam dim rank isReal .qr false = stiefelDim dim rank isReal + (if isReal then rank * (rank + 1) / 2 else rank * rank) :=
+  stiefelParam_polar dim rank h isReal
+/-- choleskyL: minimal (real); `r` short of the manifold dimension (complex: the column phases are fixed) -/
+theorem count_stiefel_choleskyL (dim rank : Nat) (h : rank ≤ dim) :
+    stiefelParam dim rank true .choleskyL false = stiefelDim dim rank true
+    ∧ stiefelParam dim rank false .choleskyL false + rank = stiefelDim dim rank false := stiefelParam_choleskyL dim rank h
+/-- euler: minimal (real, complex with phase); `r` short without the phase column -/
+theorem count_stiefel_euler (dim rank : Nat) (h : rank ≤ dim) :
+    stiefelParam dim rank true .euler false = stiefelDim dim rank true
+    ∧ stiefelParam dim rank false .euler true = stiefelDim dim rank false
+    ∧ stiefelParam dim rank false .euler false + rank = stiefelDim dim rank false := stiefelParam_euler dim rank h
+/-- the rank claimed for a Stiefel chart never exceeds its number of parameters -/
+theorem claimed_rank_le_param (dim rank : Nat) (h : rank ≤ dim) (hr : 1 ≤ rank) (isReal : Bool) (m : StMethod) (ph : Bool) :
+    stiefelRank dim rank isReal m ph ≤ stiefelParam dim rank isReal m ph := stiefelRank_le_param dim rank h hr isReal m ph
+
+/-! ### the linear placements are injective -/
+
+/-- SU chart: `θ ↦ i Σ θ_a G_a` is injective -/
+theorem placement_su_injective (S : Scalars ℂ) (hS : S.Valid dim) (hd : 1 ≤ dim) (θ θ' : Nat → ℝ)
+    (h : toM dim dim (soGenerator S dim false θ) = toM dim dim (soGenerator S dim false θ')) :
+    ∀ p, p < dim * dim - 1 → θ p = θ' p := soGenerator_complex_injective S hS hd θ θ' h
+/-- SO chart (as repaired: antisymmetric block): injective, hence not constant -/
+theorem placement_so_injective (S : Scalars ℂ) (hS : S.Valid dim) (hd : 1 ≤ dim) (θ θ' : Nat → ℝ)
+    (h : toM dim dim (soGenerator S dim true θ) = toM dim dim (soGenerator S dim true θ')) :
+    ∀ p, p < dim * (dim - 1) / 2 → θ p = θ' p := soGenerator_real_injective S hS hd θ θ' h
+/-- traceless Hermitian matrices -/
+theorem placement_hermitian_traceless_injective (S : Scalars ℂ) (hS : S.Valid dim) (hd : 1 ≤ dim) (θ θ' : Nat → ℝ)
+    (h : toM dim dim (symmetricRaw S dim false true θ) = toM dim dim (symmetricRaw S dim false true θ')) :
+    ∀ p, p < dim * dim - 1 → θ p = θ' p := symmetric_traceless_complex_injective S hS hd θ θ' h
+
+/-! ### base-point differentials -/
+
+/-- `D exp(0) = id` in every real Banach algebra (Mathlib) -/
+theorem hasFDerivAt_exp_zero {𝔸 : Type*} [NormedRing 𝔸] [NormedAlgebra ℝ 𝔸] [CompleteSpace 𝔸] :
+    HasFDerivAt (NormedSpace.exp : 𝔸 → 𝔸) (1 : 𝔸 →L[ℝ] 𝔸) 0 := hasFDerivAt_exp_zero'
+/-- `D cayley(0) = -2·id` -/
+theorem hasFDerivAt_cayley_zero {𝔸 : Type*} [NormedRing 𝔸] [NormedAlgebra ℝ 𝔸] [CompleteSpace 𝔸] :
+    HasFDerivAt (cayleyMap : 𝔸 → 𝔸) ((-2 : ℝ) • ContinuousLinearMap.id ℝ 𝔸) 0 := Manifold.hasFDerivAt_cayley_zero
+
+/-- the model's Cayley chart of order 1 *is* `cayleyMap ∘ generator` (contract of `inv` as in C01) -/
+theorem soCayley_eq_cayleyMap (inv : NMat ℂ → NMat ℂ)
+    (hinv : ∀ P, IsUnit (toM dim dim P).det → toM dim dim (inv P) * toM dim dim P = 1)
+    (S : Scalars ℂ) (hS : S.Valid dim) (hd : 1 ≤ dim) (isReal : Bool) (θ : Nat → ℝ) :
+    toM dim dim (soCayley inv S dim 1 isReal θ) = cayleyMap (toM dim dim (soGenerator S dim isReal θ)) := by
+  unfold soCayley cayleyMap
+  simp only [Nat.sub_self, matPow]
+  rw [toM_matMul, toM_one_sub]
+  have hsk := soGenerator_skew S hS hd isReal θ
+  have hu := isUnit_one_add_of_skew _ hsk
+  have := hinv _ (by rw [toM_one_add]; exact hu)
+  rw [toM_one_add] at this
+  rw [← Matrix.nonsing_inv_eq_ringInverse, ← Matrix.inv_eq_left_inv this]
+
+/-! ### the gap, stated -/
+
+/-- **not proved** (full statement for the minimal exp chart): the chart is locally injective around some point, i.e. its differential has
+rank `soParam = soDim` there.  (For the other maps the analogous statement with the manifold dimension is only searched numerically.) -/
+def generic_rank.Statement : Prop :=
+  ∀ (dim : Nat) (expm : NMat ℂ → NMat ℂ), (∀ A, toM dim dim (expm A) = NormedSpace.exp (toM dim dim A)) →
+    ∀ (S : Scalars ℂ), S.Valid dim → 2 ≤ dim → ∀ isReal : Bool,
+      ∃ (θ₀ : Nat → ℝ) (δ : ℝ), 0 < δ ∧ ∀ θ θ' : Nat → ℝ, (∀ p, |θ p - θ₀ p| < δ) → (∀ p, |θ' p - θ₀ p| < δ) →
+        toM dim dim (soExp expm S dim isReal θ) = toM dim dim (soExp expm S dim isReal θ') →
+        ∀ p, p < soParam dim isReal → θ p = θ' p
+
+/-- proved fragment: the first (linear) layer of the chart separates directions — together with `hasFDerivAt_exp_zero` this is the rank
+statement at the base point `θ₀ = 0` -/
+theorem generic_rank_partial (S : Scalars ℂ) (hS : S.Valid dim) (hd : 1 ≤ dim) (isReal : Bool) (θ₀ v : Nat → ℝ)
+    (hv : ∀ p, soParam dim isReal ≤ p → v p = 0)
+    (h : toM dim dim (soGenerator S dim isReal fun p => θ₀ p + 1 * v p) = toM dim dim (soGenerator S dim isReal θ₀)) :
+    ∀ p, v p = 0 := by
+  intro p
+  by_cases hp : p < soParam dim isReal
+  · cases isReal with
+    | true =>
+      have := soGenerator_real_injective S hS hd _ _ h p hp
+      linarith
+    | false =>
+      have := soGenerator_complex_injective S hS hd _ _ h p hp
+      linarith
+  · exact hv p (not_lt.1 hp)
+
+example : ∃ S : Scalars ℂ, S.Valid 3 := ⟨Gellmann.complexScalars 3, Gellmann.complexScalars_valid (by norm_num)⟩
+
 end Numqi.C02
